@@ -84,6 +84,8 @@ def h_prefix(shape, m0, d0, tod, aware=False, asdate=False, years=None):
     def fn(ctx, c):
         ctx.assume(S.within(c, 0, len(reps) - 1))
         y = reps[ctx.concrete(c)]
+        if ctx.symbolic:
+            return None          # all inputs are pinned: the check itself runs in the native replay of this path's witness
         with ctx.untraced():
             start = datetime.date(y, m0, d0) if asdate else datetime.datetime(y, m0, d0, hh, mi, ss, tzinfo=tzinfo)
             rstart = datetime.datetime(y, m0, d0) if asdate else start
@@ -99,7 +101,7 @@ def h_prefix(shape, m0, d0, tod, aware=False, asdate=False, years=None):
                 got = list(itertools.islice(rule, K))
             except ValueError as e:
                 ctx.check(not exp, "rule raises ValueError (%s) although occurrences exist" % (e,), key="raises-ValueError:%s" % _shape_key(shape))
-                return "ValueError"
+                return None
             except Exception as e:
                 ctx.fail("iteration raised %s" % type(e).__name__, key="raises-%s:%s" % (type(e).__name__, _shape_key(shape)))
             sk = _shape_key(shape)
@@ -110,7 +112,7 @@ def h_prefix(shape, m0, d0, tod, aware=False, asdate=False, years=None):
                 ctx.check(x.microsecond == 0 and x.tzinfo is tzinfo, "occurrence does not carry whole seconds / the start's tzinfo", key="tz:" + sk)
             for a_, b_ in zip(got, got[1:]):
                 ctx.check(a_ < b_, "not strictly increasing", key="order:" + sk)
-        return len(got)
+        return None
     return fn, types
 
 
